@@ -2,7 +2,8 @@
    Model: Model/Cleanup.v (events of any number of connections -> trace of
    DisconnectHook c | ResClose c r | SockClosed c | SlotReleased c); the structure of the cleanup paths of both
    transport servers ([thread_shape], [mux_shape]) is regenerated from the source on every run (Gen/GenCleanup.v);
-   [cfg thread pool] is the thread-pool server with [pool] workers / the multiplex server. *)
+   [cfg thread pool hk] is the thread-pool server with [pool] workers / the multiplex server, run by a Daemon subclass
+   whose clientDisconnect hook RAISES exactly for the connections selected by [hk]. *)
 From Coq Require Import List Arith Bool.
 Import ListNotations.
 From V Require Import Model.Cleanup Proofs.Cleanup Proofs.CleanupSrc Gen.GenCleanup Harness.H13.
@@ -32,8 +33,8 @@ Print Assumptions C13_source_worker_handback_ordered.
    and not untracked on c at that moment (none for any other), and afterwards no session instance, no slot, no
    socket, no tracked resource. *)
 Theorem C13_cleanup_exactly_once :
-  forall (thread : bool) (pool : nat) (evs : list event) (c : conn),
-  let cf := cfg thread pool in
+  forall (thread : bool) (pool : nat) (hk : conn -> bool) (evs : list event) (c : conn),
+  let cf := cfg thread pool hk in
   let st := fst (run cf evs) in let tr := snd (run cf evs) in
   c_acc (conns st c) = true -> c_ended (conns st c) = true ->
   exists evs1 ev evs2, evs = evs1 ++ ev :: evs2 /\
@@ -70,8 +71,8 @@ Print Assumptions C13_cleanup_exactly_once_any_shape.
    raising SecurityError, a @callback method raising, and k > 0 bytes followed by silence past COMMTIMEOUT —
    from every reachable state in which the daemon still serves c. *)
 Theorem C13_every_ending_ends :
-  forall (thread : bool) (pool : nat) (evs : list event) (ev : event) (c : conn),
-  let cf := cfg thread pool in
+  forall (thread : bool) (pool : nat) (hk : conn -> bool) (evs : list event) (ev : event) (c : conn),
+  let cf := cfg thread pool hk in
   active (conns (fst (run cf evs)) c) = true -> is_ending ev c = true ->
   c_ended (conns (fst (step cf (fst (run cf evs)) ev)) c) = true.
 Proof. exact every_ending_ends_src. Qed.
@@ -143,7 +144,7 @@ Print Assumptions C13_source_reject_no_hook.
 Example C13_nonvacuous :
   let evs := [Connect 0 true; Connect 1 true; Req 0 (TSession (Some 4)) (Track 1); Req 0 TPlain (Track 2); Req 1 TPlain (Track 1);
               Req 0 TPlain (Untrack 2); End 0 (EAbrupt 17 None)] in
-  let st := fst (run (cfg true 3) evs) in let tr := snd (run (cfg true 3) evs) in
+  let st := fst (run (cfg true 3 (fun c => Nat.eqb c 0)) evs) in let tr := snd (run (cfg true 3 (fun c => Nat.eqb c 0)) evs) in
   c_acc (conns st 0) = true /\ c_ended (conns st 0) = true /\
   count (DisconnectHook 0) tr = 1 /\ count (SockClosed 0) tr = 1 /\ count (ResClose 0 1) tr = 1 /\
   count (ResClose 0 4) tr = 1 /\ count (ResClose 0 2) tr = 0 /\ count (SlotReleased 0) tr = 1 /\ length tr = 5 /\ for_conn 1 tr = [] /\
@@ -152,8 +153,8 @@ Proof. vm_compute. repeat split. Qed.
 (* ... and on the multiplex server a security error ends connection 0 while a timeout elsewhere does not touch it *)
 Example C13_nonvacuous_mux :
   let evs := [Connect 0 true; Connect 1 true; Req 0 (TSession None) (Track 3); Timeout 1 5; Raise 0 TPlain FSecurity] in
-  let st := fst (run (cfg false 0) evs) in let tr := snd (run (cfg false 0) evs) in
-  let st1 := fst (run (cfg false 0) (firstn 4 evs)) in let tr1 := snd (run (cfg false 0) (firstn 4 evs)) in
+  let st := fst (run (cfg false 0 (fun _ => true)) evs) in let tr := snd (run (cfg false 0 (fun _ => true)) evs) in
+  let st1 := fst (run (cfg false 0 (fun _ => true)) (firstn 4 evs)) in let tr1 := snd (run (cfg false 0 (fun _ => true)) (firstn 4 evs)) in
   c_ended (conns st1 1) = true /\ c_ended (conns st1 0) = false /\ for_conn 0 tr1 = [] /\ c_tracked (conns st1 0) = [3] /\
   c_acc (conns st 0) = true /\ c_ended (conns st 0) = true /\
   count (DisconnectHook 1) tr = 1 /\ count (DisconnectHook 0) tr = 1 /\ count (ResClose 0 3) tr = 1 /\
